@@ -103,7 +103,7 @@ def sh(cmd, timeout=None, mem_gb=None, cwd=None, env=None):
 class Query:
     def __init__(self, name, sources, entry="harness", defines=(), unwind=8, unwindset=(),
                  flags=(), descr=None, native_sources=None, timeout=None, mem_gb=None,
-                 native_cxx=False, native_flags=(), expect_fail=None, objbits=None, backend=None, witness_optional=None, native_lib_exclude=None):
+                 native_cxx=False, native_flags=(), expect_fail=None, objbits=None, backend=None, witness_optional=None, native_lib_exclude=None, native_c_sources=None):
         self.name = name
         self.sources = list(sources)          # given to cbmc (C)
         self.entry = entry
@@ -124,6 +124,7 @@ class Query:
         self.backend = backend
         self.witness_optional = witness_optional
         self.native_lib_exclude = native_lib_exclude
+        self.native_c_sources = native_c_sources or []
         # results
         self.status = None
         self.props = {}
@@ -249,7 +250,7 @@ class Ctx:
         out = os.path.join(d, name + "_ll.c")
         cc = ["clang++-14", "-std=c++17", "-fno-exceptions", "-fno-rtti", "-D_GLIBCXX_EXTERN_TEMPLATE=0"] if cxx else ["clang-14"]
         cmd = cc + ["-O1", "-mllvm", "-inline-threshold=%d" % inline, "-fno-vectorize", "-fno-slp-vectorize", "-fno-unroll-loops",
-                    "-DVERIF_IR", "-w"] + BASE_DEFS + BASE_INC + list(defines) + list(extra_flags) + ["-S", "-emit-llvm", tu, "-o", ll]
+                    "-mllvm", "-simplifycfg-sink-common=false", "-mllvm", "-simplifycfg-hoist-common=false", "-DVERIF_IR", "-w"] + BASE_DEFS + BASE_INC + list(defines) + list(extra_flags) + ["-S", "-emit-llvm", tu, "-o", ll]
         rc, o, *_ = sh(cmd, timeout=600)
         if rc != 0:
             raise RuntimeError("clang failed for %s:\n%s" % (name, o[-3000:]))
@@ -410,6 +411,10 @@ class Ctx:
             srcs = srcs + self.native_lib(tuple(q.native_lib_exclude))
         cmd += srcs + [os.path.join(STUBS, "nd_native.c"), "-o", exe, "-lm"]
         if q.native_cxx:
+            for ci, cs in enumerate(q.native_c_sources):
+                co = os.path.join(q.dir, "csrc%d.o" % ci)
+                sh(["gcc", "-c", "-g", "-w", "-DNDEBUG"] + BASE_INC + [cs, "-o", co] + (["-fsanitize=address"] if asan else []))
+                cmd.insert(-3, co)
             # nd_native.c is C; compile separately
             obj = os.path.join(q.dir, "nd_native.o")
             rc, out, *_ = sh(["gcc", "-c", "-g", "-w", os.path.join(STUBS, "nd_native.c"), "-o", obj] + (["-fsanitize=address"] if asan else []))
